@@ -13,26 +13,29 @@
      chanclosed c | finished c                        reply channel seen closed | OnListenForReplyFinished ran
      quiesce                                                                                               *)
 EXTENDS Naturals, Sequences, FiniteSets, TraceBase
-VARIABLES ackErrors, swallow, handled, published, fin, closed, endedSet, sent, nochan
-tvars == <<ackErrors, swallow, handled, published, fin, closed, endedSet, sent, nochan, l>>
-TInit == ackErrors = FALSE /\ swallow = FALSE /\ handled = << >> /\ published = {} /\ fin = << >> /\ closed = {} /\ endedSet = {} /\ sent = {} /\ nochan = {} /\ LInit
+\* returned: deliveries for which the processor has given its verdict (cmdret): the reply cannot come out after that
+VARIABLES ackErrors, swallow, handled, published, fin, closed, endedSet, sent, nochan, returned
+tvars == <<ackErrors, swallow, handled, published, fin, closed, endedSet, sent, nochan, returned, l>>
+TInit == ackErrors = FALSE /\ swallow = FALSE /\ handled = << >> /\ published = {} /\ fin = << >> /\ closed = {} /\ endedSet = {} /\ sent = {} /\ nochan = {} /\ returned = {} /\ LInit
 Upd(f, k, v) == (k :> v) @@ f
 Cnt(c) == IF c \in DOMAIN fin THEN fin[c] ELSE 0
-K == UNCHANGED <<ackErrors, swallow, nochan>>
+K == UNCHANGED <<ackErrors, swallow, nochan, returned>>
 TReset == Is("reset") /\ ackErrors' = Ev.ackerrors /\ swallow' = Ev.swallow /\ handled' = << >> /\ published' = {} /\ fin' = << >> /\ closed' = {}
-          /\ endedSet' = {} /\ sent' = {} /\ nochan' = {} /\ Adv
+          /\ endedSet' = {} /\ sent' = {} /\ nochan' = {} /\ returned' = {} /\ Adv
 TSent == Is("sent") /\ sent' = sent \cup {Ev.c} /\ UNCHANGED <<handled, published, fin, closed, endedSet>> /\ K /\ Adv
 THandled == Is("handled") /\ handled' = Upd(handled, <<Ev.c, Ev.n>>, Ev.ok)
             /\ UNCHANGED <<published, fin, closed, endedSet, sent>> /\ K /\ Adv
 \* cmdstate: the command is still unsettled when its reply is handed to the publisher (it is acked only after the reply was published)
-TReplyPub == Is("replypub") /\ <<Ev.c, Ev.n>> \in DOMAIN handled /\ Ev.cmdstate = "none" /\ published' = published \cup {<<Ev.c, Ev.n>>}
+TReplyPub == Is("replypub") /\ <<Ev.c, Ev.n>> \in DOMAIN handled /\ Ev.cmdstate = "none" /\ <<Ev.c, Ev.n>> \notin returned
+             /\ published' = published \cup {<<Ev.c, Ev.n>>}
              /\ UNCHANGED <<handled, fin, closed, endedSet, sent>> /\ K /\ Adv
 \* the command is acked / nacked as AckCommandErrors says, and only after the reply was published
 TCmdRet == /\ Is("cmdret") /\ <<Ev.c, Ev.n>> \in DOMAIN handled
            \* a failed reply publish means Nack -- unless a ReplyPublishErrorHandler swallowed it (swallow): then, as after a
            \* successful publish, the handler's outcome and AckCommandErrors decide
            /\ Ev.ok = ((<<Ev.c, Ev.n>> \in published \/ swallow) /\ (handled[<<Ev.c, Ev.n>>] \/ ackErrors))
-           /\ UNCHANGED <<handled, published, fin, closed, endedSet, sent>> /\ K /\ Adv
+           /\ returned' = returned \cup {<<Ev.c, Ev.n>>}
+           /\ UNCHANGED <<handled, published, fin, closed, endedSet, sent, ackErrors, swallow, nochan>> /\ Adv
 \* only replies produced for its own command, with the handler's outcome
 TReply == /\ Is("reply") /\ Ev.from = Ev.c /\ Ev.c \notin closed
           /\ <<Ev.from, Ev.n>> \in DOMAIN handled        \* (the publish of the reply may still be returning)
@@ -44,7 +47,7 @@ TTimeoutReply == Is("timeoutreply") /\ Ev.c \in endedSet /\ Ev.c \notin closed
 \* nochan: the caller used SendWithReply and never holds the reply channel itself
 TEnded == /\ Is("ended") /\ endedSet' = endedSet \cup {Ev.c}
           /\ nochan' = IF Ev.nochan THEN nochan \cup {Ev.c} ELSE nochan
-          /\ UNCHANGED <<handled, published, fin, closed, sent, ackErrors, swallow>> /\ Adv
+          /\ UNCHANGED <<handled, published, fin, closed, sent, ackErrors, swallow, returned>> /\ Adv
 TChClosed == Is("chanclosed") /\ Ev.c \in endedSet /\ closed' = closed \cup {Ev.c}
              /\ UNCHANGED <<handled, published, fin, endedSet, sent>> /\ K /\ Adv
 TFinished == Is("finished") /\ Ev.c \in endedSet /\ Cnt(Ev.c) = 0 /\ fin' = Upd(fin, Ev.c, 1)     \* exactly once, only after the end
